@@ -283,6 +283,18 @@ func (ctx *wrappedSRTPContext) encryptRTCP(dst []byte, decrypted []byte, header 
 	return ctx.w.EncryptRTCP(dst, decrypted, header)
 }
 
+// rtpOverhead returns the number of bytes that encryptRTP adds to a packet:
+// the authentication tag and, when present, the MKI.
+func (ctx *wrappedSRTPContext) rtpOverhead() int {
+	return srtpOverhead + len(ctx.mki)
+}
+
+// rtcpOverhead returns the number of bytes that encryptRTCP adds to a packet:
+// the SRTCP index, the authentication tag and, when present, the MKI.
+func (ctx *wrappedSRTPContext) rtcpOverhead() int {
+	return srtcpOverhead + len(ctx.mki)
+}
+
 func (ctx *wrappedSRTPContext) roc(ssrc uint32) uint32 {
 	ctx.mutex.RLock()
 	defer ctx.mutex.RUnlock()
